@@ -139,13 +139,16 @@ def build_props(pid, force=True):
 def count_obligations(pid):
     """Theorems / lemmas / examples in Props/<pid>.v plus the shared data obligations it imports."""
     names = []
-    for rel in (f"theories/Props/{pid}.v", "theories/Proofs/GenObligations.v"):
+    props_src = open(os.path.join(COQ, f"theories/Props/{pid}.v")).read()
+    # files that instantiate generic lemmas on the regenerated tables (they hold the data obligations)
+    for rel, tag in ((f"theories/Props/{pid}.v", None), ("theories/Proofs/GenObligations.v", "GenObligations"),
+                     ("theories/Proofs/GenerateFacts.v", "GenerateFacts")):
         p = os.path.join(COQ, rel)
         if not os.path.exists(p):
             continue
-        src = open(p).read()
-        if rel.endswith("GenObligations.v") and "GenObligations" not in open(os.path.join(COQ, f"theories/Props/{pid}.v")).read():
+        if tag and tag not in props_src:
             continue
+        src = open(p).read()
         names += re.findall(r"^(?:Theorem|Lemma|Example|Corollary)\s+(\w+)", src, re.M)
     return names
 
